@@ -454,9 +454,9 @@ func init() {
 				sizes := []int{2048, 8192, 8192}
 				if c.P.Thorough() {
 					// (not larger: a pair is measured at n and 8n, and the recorded quadratic shape — unterminated comment
-					// openers, 5.4 s at 120 KB — needs minutes of CPU at 1 MB; the verdict is the same at 256 KB. The first
+					// openers, 5.4 s at 120 KB — needs minutes of CPU at 1 MB; the verdict is the same at 128 KB. The first
 					// thorough run with 131072 had the watchdog confirm "hangs" that were that known finding at 1 MB.)
-					sizes = []int{2048, 8192, 32768}
+					sizes = []int{2048, 8192, 16384}
 				}
 				c01Scaling(c, r.Intn(len(c01Shapes)), pickVersion(r), sizes[r.Intn(len(sizes))])
 			case k == 21:
